@@ -172,3 +172,47 @@ pub fn generated(t: usize) -> Vec<Scenario> {
     let mut seen = std::collections::HashSet::new();
     covering_rows(t).iter().map(|r| scenario_of(r)).filter(|s| seen.insert((s.cfg.clone(), s.streams.clone()))).collect()
 }
+
+/// Numeric boundary families (not a covering array: one scenario per value): body sizes around every size the send path
+/// treats specially, windows around the body size, reservations around the send-buffer limit.
+pub fn boundary_scenarios(quick: bool) -> Vec<Scenario> {
+    let mut v = vec![];
+    let m = |c: &[usize]| MsgSpec::simple(c);
+    // chain thresholds (256 vectored / 1024), frame size, two frames, the initial window (65535) and just beyond
+    let mut sizes: Vec<usize> = vec![];
+    for centre in [256usize, 1024, 16384, 32768, 65535] {
+        for d in [-2i64, -1, 0, 1, 2] {
+            sizes.push((centre as i64 + d) as usize);
+        }
+    }
+    if quick {
+        sizes.retain(|n| *n < 20_000 || [65534usize, 65535, 65536].contains(n));
+    }
+    for &n in &sizes {
+        for vectored in [false, true] {
+            // one send_data call of n octets in each direction
+            v.push(Scenario { name: format!("size-{}{}", n, if vectored { "-vectored" } else { "" }), cfg: Cfg { vectored, ..Cfg::default() }, streams: vec![StreamSpec::new(m(&[n]), m(&[n]))] });
+        }
+    }
+    // windows one below / at / one above the body size (both directions), with and without the capacity API
+    for (body, windows) in [(20usize, [19u32, 20, 21]), (1025, [1024, 1025, 1026])] {
+        for w in windows {
+            for cap in [false, true] {
+                v.push(Scenario {
+                    name: format!("window-{}-body-{}{}", w, body, if cap { "-capacity" } else { "" }),
+                    cfg: Cfg { c_stream_window: Some(w), s_stream_window: Some(w), ..Cfg::default() },
+                    streams: vec![StreamSpec::new(MsgSpec { use_capacity: cap, ..m(&[body]) }, MsgSpec { use_capacity: cap, ..m(&[body, 1]) })],
+                });
+            }
+        }
+    }
+    // reservations of 1..=12 octets through a send buffer of 5 (multiples, non-multiples, below, above the limit)
+    for n in 1usize..=12 {
+        v.push(Scenario {
+            name: format!("send-buffer-5-reserve-{}", n),
+            cfg: Cfg { c_max_send_buffer: Some(5), s_max_send_buffer: Some(5), ..Cfg::default() },
+            streams: vec![StreamSpec::new(MsgSpec { use_capacity: true, ..m(&[n]) }, MsgSpec { use_capacity: true, ..m(&[n, 3]) })],
+        });
+    }
+    v
+}
